@@ -47,7 +47,7 @@ def floors(tier):
     f = {"groups": 300, "schedules": 5000, "schedules_exhaustive_groups": 100, "thread_runs": 100,
          "thread_validations": 5000, "thread_runs_20plus_switches": 50, "observed_switches": 2000,
          "distinct_interleaving_signatures": 50}
-    for k in ("refs", "remote", "regex", "format", "types", "same-schema-object", "verdicts", "dollar-schema", "decimal", "handed-on-store"):
+    for k in ("refs", "remote", "regex", "format", "types", "same-schema-object", "verdicts", "dollar-schema", "decimal", "handed-on-store", "custom-scheme-root"):
         f["collision:" + k] = 60
     return f
 
@@ -134,6 +134,8 @@ def make_member(rng, d, k, kinds):
     names = list(props)
     rng.shuffle(names)
     S = {idk: R.ROOT_URL, "definitions": defs, "properties": {n: props[n] for n in names}, "additionalProperties": False}
+    if "custom-scheme-root" in kinds and k == 0:
+        S[idk] = "x-vf://svc.example/schemas/root.json"
     if d != 3:
         S["required"] = ["zz"]
     inst = {}
@@ -181,6 +183,9 @@ def group_plan(gseed):
         kinds = {"refs", "same-schema-object"}
     elif rng.random() < 0.15:
         kinds = {"handed-on-store"}
+    elif rng.random() < 0.15:
+        # member 0's root id uses a scheme urllib has no table entry for (no references in these members)
+        kinds = {"custom-scheme-root", "regex", "verdicts"}
     return kinds, n
 
 
@@ -334,11 +339,14 @@ class AmbientStateChanged(Exception):
 
 def run_schedule(members, schedule):
     from vf.obs import ambient
+    amb0 = ambient.snapshot()
     vs = [m["build"]() for m in members]
+    if ambient.snapshot() != amb0:
+        raise AmbientStateChanged("by constructing the validators: %r" % ambient.diff(amb0, ambient.snapshot()))
     its = [v.iter_errors(m["instance"]) for v, m in zip(vs, members)]
     got = [[] for _ in members]
     done = [False] * len(members)
-    amb0 = ambient.snapshot()
+    q0 = ambient.quick()
     for i in schedule:
         if done[i]:
             continue
@@ -349,9 +357,8 @@ def run_schedule(members, schedule):
             done[i] = True
         # a suspended iterator holds no ambient interpreter state (decimal context, recursion limit, ...): whatever
         # runs next in this thread - another validator, the caller - would inherit it
-        amb = ambient.snapshot()
-        if amb != amb0:
-            raise AmbientStateChanged("after a next() on member %d: %r" % (i, ambient.diff(amb0, amb)))
+        if ambient.quick() != q0:
+            raise AmbientStateChanged("after a next() on member %d: %r" % (i, ambient.diff(amb0, ambient.snapshot())))
     # drain what is left, round robin
     while not all(done):
         for i in range(len(members)):
@@ -360,6 +367,8 @@ def run_schedule(members, schedule):
                     got[i].append(fp(next(its[i])))
                 except StopIteration:
                     done[i] = True
+    if ambient.snapshot() != amb0:
+        raise AmbientStateChanged("after the schedule: %r" % ambient.diff(amb0, ambient.snapshot()))
     return got
 
 
